@@ -78,10 +78,10 @@ class cpu_budget:
 
 
 def budget_for(source):
-    """CPU seconds allowed for one call on this input: 60 s + 1 s per 2000 characters (a linear implementation needs
+    """CPU seconds allowed for one call on this input: 20 s + 1 s per 2000 characters (a linear implementation needs
     well under a second for typical inputs and a few seconds for megabyte inputs, probes included)."""
     n = len(source) if isinstance(source, str) else 0
-    return 60 + n // 2000
+    return 20 + n // 2000
 
 
 def physical_lines(text):
@@ -157,6 +157,11 @@ def parse_observed(source, stop=False, matcher=None, parser=None, idgen=None, bu
             o.exc = e
             o.exc_origin = _origin(e)
             o.tb = traceback.format_exc()[-1500:]
+        except probe.WorkBoundExceeded as e:   # "nothing hangs", logical form: a work bound far above linear was exceeded
+            o.status = "crash"
+            o.exc = e
+            o.exc_origin = _origin(e)
+            o.tb = "logical work bound exceeded: %s\n%s" % (e, traceback.format_exc()[-1000:])
         except CpuBudgetExceeded as e:  # "nothing hangs": the call did not finish within a CPU budget far above linear work
             o.status = "crash"
             o.exc = e
@@ -512,7 +517,7 @@ def compile_observed(ast, uri="uri.feature", idgen=None):
             pickles = comp.compile(doc)
         status = "ok"
         res = pickles
-    except (Exception, CpuBudgetExceeded) as e:
+    except (Exception, CpuBudgetExceeded, probe.WorkBoundExceeded) as e:
         status = "crash"
         res = {"type": type(e).__name__, "repr": repr(e)[:200], "origin": _origin(e)}
     mutated = doc != before
@@ -526,12 +531,12 @@ def enum_observed(data, uri="uri.feature", options=(True, True, True), events=No
     if stop is not None:
         ge.parser.stop_at_first_error = stop
     src = {"source": {"uri": uri, "data": data, "mediaType": "text/x.cucumber.gherkin+plain"}}
-    with probe.auditing() as opened:
+    with probe.auditing() as opened, probe.observing():
         try:
-            with cpu_budget(budget_for(data) + 60):
+            with cpu_budget(budget_for(data) + 40):
                 envs = list(ge.enum(src))
             return "ok", envs, list(opened), src
-        except (Exception, CpuBudgetExceeded) as e:
+        except (Exception, CpuBudgetExceeded, probe.WorkBoundExceeded) as e:
             return "crash", {"type": type(e).__name__, "repr": repr(e)[:200], "origin": _origin(e)}, list(opened), src
 
 
